@@ -38,6 +38,9 @@ def gen_case(D):
                 'shape': D.choice(['with_items', 'subwf']),
                 'delay': D.choice([-1, 3, 20, 20]),
                 'n': D.int(1, 3), 'salt': D.int(0, 10),
+                # a delayed task in front: integrity passes run while the
+                # workflow has no RUNNING task, the task gets stuck later
+                'prelude': D.choice([None, None, 15, 125, 135]),
                 'advances': [D.choice([5, 9, 11, 100, 130, 140])
                              for _ in range(D.int(1, 4))]}
     k = D.int(1, 4)
@@ -275,14 +278,19 @@ def _run_hb(case, stats, text, checker):
 
 def render_integrity(case):
     n = case['n']
+    pre = ''
+    if case.get('prelude'):
+        pre = ("    pre:\n      action: std.noop\n      wait-before: %d\n"
+               "      on-success: w\n" % case['prelude'])
     if case['shape'] == 'with_items':
-        return ("version: '2.0'\nwf:\n  tasks:\n    w:\n"
+        return ("version: '2.0'\nwf:\n  tasks:\n" + pre + "    w:\n"
                 "      with-items: i in <% [" + ', '.join(
                     str(i) for i in range(n)) + "] %>\n"
                 "      action: std.echo output=<% $.i %>\n"
                 "      on-success: after\n    after:\n"
                 "      action: std.noop\n")
-    return ("version: '2.0'\nwf:\n  tasks:\n    w:\n      workflow: sub\n"
+    return ("version: '2.0'\nwf:\n  tasks:\n" + pre +
+            "    w:\n      workflow: sub\n"
             "      on-success: after\n    after:\n      action: std.noop\n"
             "sub:\n  tasks:\n    s:\n      action: std.noop\n")
 
@@ -350,8 +358,18 @@ def _run_integrity(case, stats, text):
             n += 1
 
     drain(False)
+    if case.get('prelude'):
+        # passes of the integrity check while 'pre' is delayed
+        t_end = T0 + datetime.timedelta(seconds=case['prelude'] + 1)
+        while sim.now() < t_end:
+            sim.timeutils.set_time_override(min(
+                t_end, sim.now() + datetime.timedelta(seconds=11)))
+            drain(True)
     snap = sim.snapshot()
-    w = [t for t in snap['task'].values() if t['name'] == 'w'][0]
+    ws = [t for t in snap['task'].values() if t['name'] == 'w']
+    if not ws:
+        raise sim.HarnessError('task w did not start after the prelude')
+    w = ws[0]
     stuck = w['state'] == 'RUNNING' and dropped['n'] == 1
     kids_done = sim.now()
     completions = 0
@@ -369,6 +387,14 @@ def _run_integrity(case, stats, text):
             first_fixed_at = (sim.now() - kids_done).total_seconds()
     final = sim.snapshot()
     wf_ = [t for t in final['task'].values() if t['name'] == 'w'][0]
+    if stuck and case['delay'] >= 0 and wf_['state'] == 'RUNNING':
+        # the check re-arms itself every 120 s: three more periods
+        for _ in range(3):
+            sim.timeutils.set_time_override(
+                sim.now() + datetime.timedelta(seconds=125))
+            drain(True)
+        final = sim.snapshot()
+        wf_ = [t for t in final['task'].values() if t['name'] == 'w'][0]
     afters = [t for t in final['task'].values() if t['name'] == 'after']
     elapsed = (sim.now() - kids_done).total_seconds()
     if stuck:
@@ -406,6 +432,7 @@ def _run_integrity(case, stats, text):
                                 ('type', 'msg', 'frame', 'where', 'label')}})
     if stats is not None:
         tg = ['integrity_case', 'shape_' + case['shape'],
+              'prelude_%s' % case.get('prelude'),
               'delay_%s' % case['delay'], 'stuck' if stuck else 'not_stuck']
         if wf_['state'] in FINAL and stuck:
             tg.append('recovered')
